@@ -37,6 +37,12 @@ Plate.vos Plate.vok Plate.required_vos: Plate.v Base.vos Units.vos Contents.vos 
 Prog.vo Prog.glob Prog.v.beautified Prog.required_vo: Prog.v Base.vo Units.vo Contents.vo Container.vo Plate.vo Dilute.vo Solve.vo
 Prog.vio: Prog.v Base.vio Units.vio Contents.vio Container.vio Plate.vio Dilute.vio Solve.vio
 Prog.vos Prog.vok Prog.required_vos: Prog.v Base.vos Units.vos Contents.vos Container.vos Plate.vos Dilute.vos Solve.vos
+Slicer.vo Slicer.glob Slicer.v.beautified Slicer.required_vo: Slicer.v Base.vo Plate.vo
+Slicer.vio: Slicer.v Base.vio Plate.vio
+Slicer.vos Slicer.vok Slicer.required_vos: Slicer.v Base.vos Plate.vos
+SlicerThm.vo SlicerThm.glob SlicerThm.v.beautified SlicerThm.required_vo: SlicerThm.v Base.vo Plate.vo Slicer.vo
+SlicerThm.vio: SlicerThm.v Base.vio Plate.vio Slicer.vio
+SlicerThm.vos SlicerThm.vok SlicerThm.required_vos: SlicerThm.v Base.vos Plate.vos Slicer.vos
 ContainerThm2.vo ContainerThm2.glob ContainerThm2.v.beautified ContainerThm2.required_vo: ContainerThm2.v Base.vo Units.vo UnitsThm.vo Contents.vo Container.vo ContainerThm.vo
 ContainerThm2.vio: ContainerThm2.v Base.vio Units.vio UnitsThm.vio Contents.vio Container.vio ContainerThm.vio
 ContainerThm2.vos ContainerThm2.vok ContainerThm2.required_vos: ContainerThm2.v Base.vos Units.vos UnitsThm.vos Contents.vos Container.vos ContainerThm.vos
@@ -70,3 +76,6 @@ Props/C10.vos Props/C10.vok Props/C10.required_vos: Props/C10.v Base.vos Units.v
 Props/C17.vo Props/C17.glob Props/C17.v.beautified Props/C17.required_vo: Props/C17.v Base.vo Units.vo Contents.vo Container.vo ContainerThm.vo ContainerThm2.vo Plate.vo PlateThm.vo
 Props/C17.vio: Props/C17.v Base.vio Units.vio Contents.vio Container.vio ContainerThm.vio ContainerThm2.vio Plate.vio PlateThm.vio
 Props/C17.vos Props/C17.vok Props/C17.required_vos: Props/C17.v Base.vos Units.vos Contents.vos Container.vos ContainerThm.vos ContainerThm2.vos Plate.vos PlateThm.vos
+Props/C13.vo Props/C13.glob Props/C13.v.beautified Props/C13.required_vo: Props/C13.v Base.vo Plate.vo Slicer.vo SlicerThm.vo
+Props/C13.vio: Props/C13.v Base.vio Plate.vio Slicer.vio SlicerThm.vio
+Props/C13.vos Props/C13.vok Props/C13.required_vos: Props/C13.v Base.vos Plate.vos Slicer.vos SlicerThm.vos
